@@ -350,6 +350,7 @@ fn leaf_block(cfg: &DocCfg, ctx: &str) -> BoxedStrategy<Blk> {
     if on("code") {
         let indented_on = cfg.on("indented_code");
         let lang_on = cfg.on("code_lang");
+        let fence_lines_on = cfg.on("code_fence_in_body") && !cfg.hostile;
         opts.push((
             3,
             (
@@ -359,13 +360,23 @@ fn leaf_block(cfg: &DocCfg, ctx: &str) -> BoxedStrategy<Blk> {
                 prop_oneof![3 => Just(String::new()), 2 => "[a-z]{1,6}", 1 => "[a-z]{1,4} [a-z]{1,4}"],
                 vec(code_line(cfg.hostile), 1..5),
                 0u8..8,
+                // a body line that looks like a fence (also indented by up to three spaces, which
+                // would still close a fence of the same kind)
+                opt_if(fence_lines_on, 0.12, (0usize..4, 3usize..6, 0u8..3).boxed()),
             )
-                .prop_map(move |(tilde, _x, flen, lang, lines, ind)| Blk::Code {
-                    fenced: !(indented_on && ind == 0),
-                    tilde,
-                    flen,
-                    lang: if lang_on { lang } else { String::new() },
-                    lines,
+                .prop_map(move |(tilde, _x, flen, lang, mut lines, ind, fence_line)| {
+                    let mut tilde = tilde;
+                    let mut fenced = !(indented_on && ind == 0);
+                    if let Some((indent, run, at)) = fence_line {
+                        // the block itself is then fenced with tildes, so that the body is what the
+                        // source says it is
+                        tilde = true;
+                        fenced = true;
+                        let line = format!("{}{}", " ".repeat(indent), "`".repeat(run));
+                        let pos = (at as usize).min(lines.len());
+                        lines.insert(pos, line);
+                    }
+                    Blk::Code { fenced, tilde, flen, lang: if lang_on { lang } else { String::new() }, lines }
                 })
                 .boxed(),
         ));
@@ -617,7 +628,7 @@ pub fn doc(cfg: &DocCfg) -> BoxedStrategy<Doc> {
         }
         proptest::option::weighted(
             0.08,
-            (any::<bool>(), any::<bool>(), vec(inlines(&cfg, false, 2).prop_map(|i| vec![Blk::Para(i)]), 9..17)).prop_map(move |(ordered, loose, items)| Blk::List {
+            (any::<bool>(), any::<bool>(), prop_oneof![20 => vec(inlines(&cfg, false, 2).prop_map(|i| vec![Blk::Para(i)]), 9..17), 1 => vec(inlines(&cfg, false, 1).prop_map(|i| vec![Blk::Para(i)]), 98..104)]).prop_map(move |(ordered, loose, items)| Blk::List {
                 ordered,
                 start: 1,
                 paren: false,
